@@ -19,6 +19,8 @@ SETTINGS = {
     'triangular': [['Gradient 1', 'triangular', 40, 45, 60]],
     'lognormal': [['Gradient 1', 'lognormal', 3.8, 0.1]],
     'binomial': [['Number of Production Wells', 'binomial', 4, 0.5], ['Gradient 1', 'uniform', 40, 60]],
+    # a legal distribution on a very small scale (a value re-formatted with a fixed number of decimals leaves the support)
+    'tiny': [['Water Loss Fraction', 'uniform', 1e-8, 9e-8], ['Gradient 1', 'uniform', 40, 60]],
     'mix': [['Gradient 1', 'normal', 50, 3], ['Utilization Factor', 'uniform', 0.7, 0.95], ['Ambient Temperature', 'triangular', 5, 15, 25],
             ['Reservoir Depth', 'lognormal', 1.0, 0.05], ['Number of Injection Wells', 'binomial', 3, 0.6]],
 }
@@ -97,9 +99,25 @@ def judge(spec, r, res):
     if ok_tasks is not None:
         want = [(i[1], tuple(float(x) for x in i[2:])) for i in inputs]
         for o in r['outcomes']:
-            draws = [(n, a) for (n, a) in o[4] if n not in ('seed', 'default_rng', 'RandomState', 'Generator')]
-            if [(n, tuple(a)) for n, a in draws] != want:
-                check.fail(res, 'calls/nonconforming', f'iteration {o[0]} drew {draws}, requested {want}')
+            draws = [d for d in o[4] if d[0] not in ('seed', 'default_rng', 'RandomState', 'Generator')]
+            if [(d[0], tuple(d[1])) for d in draws] != want:
+                check.fail(res, 'calls/nonconforming', f'iteration {o[0]} drew {[(d[0], d[1]) for d in draws]}, requested {want}')
+        # (c') the value an iteration uses and records is the value it drew (not a rounded or re-formatted one): every drawn value of a
+        # successful iteration appears, for its input, in exactly one row
+        recorded = {}
+        for toks, ins, raw in rows:
+            for i in inputs:
+                if i[0] in ins:
+                    recorded.setdefault(i[0], []).append(float(ins[i[0]]))
+        for o in r['outcomes']:
+            if o[2] != 'ok':
+                continue
+            draws = [d for d in o[4] if d[0] not in ('seed', 'default_rng', 'RandomState', 'Generator')]
+            for i, d in zip(inputs, draws):
+                if len(d) > 2 and d[2] is not None and d[2] not in recorded.get(i[0], []):
+                    near = min(recorded.get(i[0], [math.nan]), key=lambda x: abs(x - d[2]))
+                    check.fail(res, f'draws/recorded_differs/{i[1]}', f'iteration {o[0]} drew {d[2]!r} for {i[0]} ({i[1]}); no row records that value (nearest recorded {near!r})')
+                    break
     return {'rows': len(rows), 'distinct': len(set(vectors)), 'K': K}
 
 
@@ -175,7 +193,7 @@ def run(tier, seed, budget=None):
     return e1.run_generic(
         sys.modules[__name__], PID, tier, seed, budget,
         rule=('E3: real Monte-Carlo main() under a fork-faithful controlled pool for every settings file in {normal, uniform, triangular, '
-              'lognormal, binomial(+uniform), mix of five, three with "#" for the mean/mode} x K iterations x ALL assignments of iterations to <=W workers (set partitions; '
+              'lognormal, binomial(+uniform), a 1e-8-wide uniform, mix of five, three with "#" for the mean/mode} x K iterations x ALL assignments of iterations to <=W workers (set partitions; '
               'quick K in {3,4}, W=3; thorough K in {4,5,6}, W=4); E4: all interleavings of the real pylocker row-append protocol for 2 '
               'workers up to 3 preemptions (thorough: 4, and 3 workers up to 2), with and without a failing iteration; plus free-running real '
               'ProcessPoolExecutor runs. Non-trivial = assignment that uses several workers / interleaving with >=1 preemption; states = '
